@@ -1380,16 +1380,36 @@ def check_discarded_lines(chk, unit, rule="P7"):
         if f.body is None:
             continue
 
+        FG = ("fgets", "__fgets_chk", "__builtin___fgets_chk")
+        PROBES = ("strchr", "strrchr", "memchr", "strlen", "feof", "feof_unlocked", "__builtin_strchr", "__builtin_strrchr", "__builtin_strlen")
+
+        def is_discard_loop(x):
+            """a loop that reads on with fgets and does nothing with what it read but look for the newline / the end of the file:
+            `while (fgets(..) && !strrchr(..));`  or  `for (;;) { if (!fgets(..)) break; if (strrchr(..)) break; }`"""
+            if x.get("k") not in ("for", "while", "do"):
+                return False
+            parts = [x.get(k_) for k_ in ("cond", "body", "inc") if x.get(k_) is not None]
+            calls = [c for p_ in parts for c in X.calls_in(p_)]
+            if not any(X.callee_name(c) in FG for c in calls):
+                return False
+            if any(X.callee_name(c) not in FG + PROBES for c in calls):
+                return False
+            for p_ in parts:
+                for y in walk(p_):
+                    if y.get("k") == "assign" or (y.get("k") == "un" and y.get("op") in ("++", "--")):
+                        t_ = X.strip(y["ch"][0])
+                        if t_ is None or t_.get("k") != "ref" or t_.get("rk") != "local":
+                            return False
+            return True
+
         def fgets_buffers(e):
             return {canon(f, c["ch"][1]) for c in X.calls_in(e) if X.callee_name(c) in ("fgets", "__fgets_chk", "__builtin___fgets_chk") and c["ch"][1:]}
 
         def discards(stmt, depth=0):
             """does the statement contain a loop whose condition reads on with fgets (directly or in a unit-local helper)?"""
             for x in walk(stmt):
-                if x.get("k") in ("for", "while", "do") and x.get("cond") is not None and fgets_buffers(x["cond"]):
-                    body = x.get("body")
-                    if body is None or body.get("k") == "null" or not any(y.get("k") in ("call", "assign") for y in walk(body)):
-                        return True
+                if is_discard_loop(x):
+                    return True
                 if x.get("k") == "call" and depth < 2:
                     g = unit.functions.get(X.callee_name(x) or "")
                     if g is not None and g is not f and g.body is not None and discards_in(g, depth + 1):
@@ -1397,13 +1417,7 @@ def check_discarded_lines(chk, unit, rule="P7"):
             return False
 
         def discards_in(g, depth):
-            for x in walk(g.body):
-                if x.get("k") in ("for", "while", "do") and x.get("cond") is not None and any(
-                        X.callee_name(c) in ("fgets", "__fgets_chk", "__builtin___fgets_chk") for c in X.calls_in(x["cond"])):
-                    body = x.get("body")
-                    if body is None or body.get("k") == "null" or not any(y.get("k") in ("call", "assign") for y in walk(body)):
-                        return True
-            return False
+            return any(is_discard_loop(x) for x in walk(g.body))
         if not fgets_buffers(f.body):
             continue
         for node in walk(f.body):
